@@ -309,6 +309,38 @@ func (u *Unit) New() Codec {
 	return p.Interface().(Codec)
 }
 
+// Inst is a reusable Go value of a unit for hot loops: Reset makes it
+// indistinguishable from New() (zero value, Default(), version set) without
+// allocating.
+type Inst struct {
+	u    *Unit
+	elem reflect.Value
+	c    Codec
+	def  interface{ Default() }
+	sv   interface{ SetVersion(int16) }
+}
+
+func (u *Unit) NewInst() *Inst {
+	p := reflect.New(u.RT)
+	i := &Inst{u: u, elem: p.Elem(), c: p.Interface().(Codec)}
+	i.def, _ = p.Interface().(interface{ Default() })
+	if u.S.TopLevel {
+		i.sv = p.Interface().(interface{ SetVersion(int16) })
+	}
+	return i
+}
+
+func (i *Inst) Reset() Codec {
+	i.elem.SetZero()
+	if i.def != nil {
+		i.def.Default()
+	}
+	if i.sv != nil {
+		i.sv.SetVersion(int16(i.u.Version))
+	}
+	return i.c
+}
+
 // Build stores a tree into a fresh Go value.
 func (u *Unit) Build(v *SVal) Codec {
 	c := u.New()
